@@ -380,6 +380,13 @@ func selfTest(env *fw.Env, acc []*fw.Trace) []*fw.Trace {
 	return out
 }
 
+func withTimeout(d time.Duration, jobs []fw.TLCJob) []fw.TLCJob {
+	for i := range jobs {
+		jobs[i].Timeout = d
+	}
+	return jobs
+}
+
 func main() {
 	fixes := `{"oneIdentity", "atomicEvict"}` // the tree the model describes (patches/C07-1, C07-2); C03's invariants hold without them too
 	fw.Main(&fw.Property{
@@ -387,14 +394,14 @@ func main() {
 		DesignRef: "DESIGN.md §5 C03",
 		ModelJobs: func(env *fw.Env) []fw.TLCJob {
 			if env.Tier == "thorough" {
-				return []fw.TLCJob{
+				return withTimeout(40*time.Minute, []fw.TLCJob{
 					{Name: "handshake 2x2 depth 9, patched tree", Module: "Session", Cfg: "Session_c03.cfg",
 						Consts: map[string]string{"FIXES": fixes, "LEVEL": "9", "EMIT": `"no"`}},
 					{Name: "handshake 2x2 depth 8, unpatched tree", Module: "Session", Cfg: "Session_c03.cfg",
 						Consts: map[string]string{"FIXES": "{}", "LEVEL": "8", "EMIT": `"no"`}},
 					{Name: "handshake 3x3 depth 6, patched tree", Module: "Session", Cfg: "Session_c03t.cfg",
 						Consts: map[string]string{"FIXES": fixes, "LEVEL": "6", "EMIT": `"no"`}},
-				}
+				})
 			}
 			return []fw.TLCJob{
 				{Name: "handshake 2x2 depth 7, patched tree", Module: "Session", Cfg: "Session_c03.cfg",
@@ -405,14 +412,14 @@ func main() {
 		},
 		GenJobs: func(env *fw.Env) []fw.TLCJob {
 			if env.Tier == "thorough" {
-				return []fw.TLCJob{
+				return withTimeout(40*time.Minute, []fw.TLCJob{
 					{Name: "gen:transitions 2x2", Module: "Session", Cfg: "Session_c03.cfg", Workers: 8,
 						Consts: map[string]string{"FIXES": fixes, "LEVEL": "6", "EMIT": `"all"`}},
 					{Name: "gen:transitions 3x3", Module: "Session", Cfg: "Session_c03t.cfg", Workers: 8,
 						Consts: map[string]string{"FIXES": fixes, "LEVEL": "4", "EMIT": `"all"`}},
 					{Name: "gen:simulate 3x3", Module: "Session", Cfg: "Session_c03t.cfg", Workers: 4, Simulate: "num=6000", Depth: 15, Seed: env.Seed,
 						Consts: map[string]string{"FIXES": fixes, "LEVEL": "14", "EMIT": `"last"`}},
-				}
+				})
 			}
 			return []fw.TLCJob{
 				{Name: "gen:transitions 2x2", Module: "Session", Cfg: "Session_c03.cfg", Workers: 8,
